@@ -128,22 +128,28 @@ def ref_krum(J, f, k):
     return vec, sorted(int(i) for i in sel), margin, scores
 
 
-def ref_apply(a, J, Jabs=None):
-    """Reference aggregation of the model Jacobian J (float64).
-    Returns dict(vec, bound (per-column magnitude bound for the error model), ambiguous)."""
+def ref_apply(a, J, Jerr=None):
+    """Reference aggregation of the model Jacobian J (float64). Jerr is an entry-wise bound on the
+    error of the Jacobian the real code sees (0 when J is exact input data).
+    Returns dict(vec, tol (per column: how far a correct implementation may be), ambiguous)."""
     m = J.shape[0]
     k = a["kind"]
-    if Jabs is None:
-        Jabs = np.abs(J)
+    if Jerr is None:
+        Jerr = np.zeros_like(J)
     if k in LINEAR:
         w = ref_weights_linear(a, m)
-        return {"vec": w @ J, "bound": np.abs(w) @ Jabs, "ambiguous": False, "wmax": float(np.abs(w).max()) if m else 0.0}
+        return {"vec": w @ J, "tol": np.abs(w) @ Jerr, "ambiguous": False}
+    colerr = Jerr.max(axis=0) if m else np.zeros(J.shape[1])
     if k == "TrimmedMean":
-        vec = ref_trimmed_mean(J, int(a["b"]))
-        return {"vec": vec, "bound": Jabs.max(axis=0), "ambiguous": False, "wmax": 1.0}
+        # order statistics are 1-Lipschitz in the sup norm of a column
+        return {"vec": ref_trimmed_mean(J, int(a["b"])), "tol": colerr, "ambiguous": False}
     if k == "Krum":
-        vec, sel, margin, _ = ref_krum(J, int(a["f"]), int(a.get("k", 1)))
-        return {"vec": vec, "bound": Jabs.max(axis=0), "ambiguous": bool(margin < 1e-6), "wmax": 1.0}
+        f, ksel = int(a["f"]), int(a.get("k", 1))
+        vec, sel, margin, scores = ref_krum(J, f, ksel)
+        rowerr = float(np.sqrt((Jerr**2).sum(axis=1)).max()) if m else 0.0
+        gap_abs = margin * max(float(np.abs(scores).max()), 1e-300) if np.isfinite(margin) else float("inf")
+        ambiguous = bool(margin < 1e-6 or gap_abs <= 8.0 * max(1, m - f - 2) * rowerr)
+        return {"vec": vec, "tol": colerr, "ambiguous": ambiguous}
     raise ValueError(f"no reference model for {k}")
 
 
